@@ -144,10 +144,13 @@ def run(ctx):
     # pair of refinements after every value (an error message built from the repr of the schema so far must still be a
     # DeclarationError)
     from .C11 import UNIVERSE
+    for sp in (UNIVERSE["str#special"], UNIVERSE["str#almost"]):
+        for v in sp["values"]:
+            for o1, o2 in itertools.permutations(sp["ops"], 2):
+                cases.append(declcorr.ChainCase("str", ([("call", (v,))] if v is not None else []) + [o1, o2]))
+            for o1 in sp["ops"]:
+                cases.append(declcorr.ChainCase("str", ([("call", (v,))] if v is not None else []) + [o1]))
     sp = UNIVERSE["str#special"]
-    for v in sp["values"]:
-        for o1, o2 in itertools.permutations(sp["ops"], 2):
-            cases.append(declcorr.ChainCase("str", ([("call", (v,))] if v is not None else []) + [o1, o2]))
     for v in ("{}", "a{0}", "%d", "{x}"):
         for ops in ([("call", (v,)), ("call", (v,))], [("call", (v,)), ("len", (99,))], [("call", (v,)), ("alphabet", ("z",))],
                     [("alphabet", (v,)), ("alphabet", (v,))], [("contains", (v,)), ("len", (..., 0))], [("contains", (v,)), ("alphabet", ("z",))]):
